@@ -26,6 +26,9 @@ pub struct WrapCase {
     pub width: usize,
     pub rich: bool,
     pub decorate: bool,
+    /// also render the wrapper after a finished paragraph: it must come out the same
+    #[serde(default)]
+    pub lead: bool,
 }
 
 fn cfg_of(case_rich: bool, decorate: bool) -> CfgSpec {
@@ -136,6 +139,28 @@ pub fn check_wrapper(case: &WrapCase, st: &mut Stats) -> Result<(), String> {
             got.iter().skip(first.saturating_sub(1)).take(4).collect::<Vec<_>>(),
             exp.iter().skip(first.saturating_sub(1)).take(4).collect::<Vec<_>>()
         ));
+    }
+    if case.lead && solid(&got) {
+        // what precedes a block does not change how the block itself is rendered
+        let lead_html = format!("<p>zz</p>{}", outer);
+        let rl = render(&cfg, lead_html.as_bytes(), w);
+        if let Some(b) = rl.bad() {
+            return Err(format!("{}\nhtml={}", b, short(&lead_html, 800)));
+        }
+        if let Some(ll) = lines_of(&rl) {
+            st.class("after_a_paragraph");
+            let rest: Vec<String> = ll.iter().skip(1).skip_while(|l| l.trim().is_empty()).cloned().collect();
+            let blanks = ll.len().saturating_sub(1 + rest.len());
+            if ll.first().map(|l| l.trim_end()) != Some("zz") || blanks > 2 || rest != got {
+                return Err(format!(
+                    "the block renders differently after a paragraph (w={})\n html={}\n alone={:?}\n after ={:?}",
+                    w,
+                    short(&lead_html, 900),
+                    got.iter().take(8).collect::<Vec<_>>(),
+                    ll.iter().take(10).collect::<Vec<_>>()
+                ));
+            }
+        }
     }
     let depth = items.iter().map(|i| census(i).max_depth).max().unwrap_or(0) + 1;
     let crossing = match &case.wrap {
@@ -249,12 +274,12 @@ fn wrap_case() -> BoxedStrategy<WrapCase> {
         1 => prop::collection::vec(item(2), 1..3),
     ];
     let heading_inl = gen::inlines(&g, 1);
-    (wrap, items, heading_inl, 4usize..=100, any::<bool>(), prop::bool::weighted(0.3))
-        .prop_map(|(wrap, mut items, hinl, width, rich, decorate)| {
+    (wrap, items, heading_inl, 4usize..=100, any::<bool>(), prop::bool::weighted(0.3), prop::bool::weighted(0.4))
+        .prop_map(|(wrap, mut items, hinl, width, rich, decorate, lead)| {
             if let Wrap::H(_) = wrap {
                 items = vec![vec![Block::Inl(hinl)]];
             }
-            WrapCase { wrap, items, width, rich, decorate }
+            WrapCase { wrap, items, width, rich, decorate, lead }
         })
         .boxed()
 }
